@@ -136,7 +136,7 @@ def plan(tier, seed):
                      observe=rnd.random() < 0.3, async_steps=rnd.random() < 0.25, chatty=rnd.random() < 0.06,
                      loglevel=rnd.choice(LOGLEVELS) if rnd.random() < 0.3 else "",
                      logfilter=rnd.choice(LOGFILTERS) if rnd.random() < 0.3 else "",
-                     logclear=rnd.random() < 0.2, tamper=rnd.random() < 0.2)
+                     logclear=rnd.random() < 0.2, tamper=rnd.random() < 0.2, wip=rnd.random() < 0.12)
 
     def cleanup_only_programs():
         """programs in which NOTHING fails except a cleanup registered at a given layer (every layer, raising or not)"""
@@ -255,7 +255,7 @@ def shared(chk, part="core"):
     """Run (or load) the shared stage for this tree / tier / seed.  Returns a dict:
        n_runs, tlc: [{module,cfg,distinct,generated,wall,coverage}], verdicts: {clause: [ {key, ...} ]},
        divergences, samples, design_violations"""
-    key = tree_key({"tier": chk.tier, "seed": chk.seed, "part": part, "v": 15})
+    key = tree_key({"tier": chk.tier, "seed": chk.seed, "part": part, "v": 16})
     os.makedirs(CACHE, exist_ok=True)
     # one entry per (part, tier, repository location): runs against a mutated copy must not evict /repo's entry
     prefix = "%s-%s-%s-" % (part, chk.tier, hashlib.sha256(REPO.encode()).hexdigest()[:8])
